@@ -23,6 +23,11 @@ pub struct Case {
     pub root: String,
     pub pipeline: bool,
     pub depth: bool,
+    /// Some(room): xargs runs under a 256 KiB stack limit (128 KiB kernel budget) with the
+    /// environment padded so that about `room` bytes are left for the command line: the paths
+    /// must then be spread over several invocations, sized by bytes (not characters)
+    #[serde(default)]
+    pub xargs_room: Option<u32>,
 }
 
 fn gen_hostile_name(g: &mut Gen, long_mode: bool) -> String {
@@ -71,7 +76,7 @@ pub fn gen_case(g: &mut Gen) -> Case {
         };
         nodes.push(Node::new(path, kind));
     }
-    Case { tree: TreeSpec { nodes }, root: g.pick(&["c/r", "c/r/", "./c/r", "c/r/.", "c//r"]).to_string(), pipeline: if long_mode { g.chance(1, 2) } else { g.chance(1, 6) }, depth: g.chance(1, 4) }
+    Case { tree: TreeSpec { nodes }, root: g.pick(&["c/r", "c/r/", "./c/r", "c/r/.", "c//r"]).to_string(), pipeline: if long_mode { g.chance(1, 2) } else { g.chance(1, 6) }, depth: g.chance(1, 4), xargs_room: if g.chance(1, 2) { Some(g.pick(&[6_000u32, 9_000, 14_000, 24_000, 40_000, 70_000])) } else { None } }
 }
 
 fn special(name: &str) -> bool {
@@ -125,7 +130,21 @@ pub fn check(ctx: &mut Ctx, c: &Case) -> Outcome {
         if !f.ordinary() || f.code != Some(0) || f.stdout != want0 {
             return fail(format!("C07:-print0-output-differs:binary:{}", hostile_kinds()), format!("find {a:?}\nexpected {} bytes, observed {} bytes\nexpected {:?}\nobserved {:?}\nexit {:?} stderr {:?}", want0.len(), f.stdout.len(), lossy(&want0), lossy(&f.stdout), f.code, lossy(&f.stderr)));
         }
-        let run = run_xargs(ctx, &["-0".into()], &[rec_path()], &f.stdout, "", BinOpts { clear_env: true, ..Default::default() });
+        let mut bo = BinOpts { clear_env: true, ..Default::default() };
+        if let Some(room) = c.xargs_room {
+            bo.stack_limit = Some(256 << 10);
+            // budget 131072 - 2048 headroom - environment; pad the environment up to the wanted room
+            let pad = (131_072usize - 2_048 - 600).saturating_sub(room as usize);
+            let mut left = pad;
+            let mut i = 0;
+            while left > 100 {
+                let n = left.min(30_000);
+                bo.env.push((format!("VERIF_PAD{i}").into(), "p".repeat(n - 20).into()));
+                left -= n;
+                i += 1;
+            }
+        }
+        let run = run_xargs(ctx, &["-0".into()], &[rec_path()], &f.stdout, "", bo);
         let got: Vec<Vec<u8>> = run.records.iter().flat_map(|r| r.args.clone()).collect();
         let want: Vec<Vec<u8>> = paths.iter().map(|p| p.as_bytes().to_vec()).collect();
         if run.out.code != Some(0) || got != want {
@@ -135,6 +154,7 @@ pub fn check(ctx: &mut Ctx, c: &Case) -> Outcome {
     let nt = c.tree.nodes.iter().any(|n| special(n.name()));
     Pass::new(nt)
         .class_if(c.pipeline, "binary-pipeline")
+        .class_if(c.pipeline && c.xargs_room.map_or(false, |r| want0.len() > r as usize), "pipeline-needs-several-xargs-invocations")
         .class_if(want0.len() > 8192, "output-over-8KiB")
         .class_if(paths.iter().any(|p| p.find('\n').map_or(false, |i| p.len() - i > 1024)), "newline-over-1KiB-before-end")
         .class_if(c.tree.nodes.iter().any(|n| n.name().trim().is_empty()), "blank-only-name")
